@@ -232,17 +232,28 @@ def corpus():
     ]
 
 
+def focus(changed):
+    R.set_focus(changed)
+
+
 def generate(rng, n):
     out = []
     for b in BOUNDARY:
         for m in ("Silent", "Strict", "Lenient"):
             out.append({"kind": "header", "stream": "boundary", "mode": m, "lines": list(b)})
-    for _ in range(max(40, n // 5)):
+    # shares of the aimed streams; raised when the functions they exercise changed in the source
+    ops_share = 3 if R.focused_fn("MafHeader.__setitem__", "MafHeader.__delitem__", "MafHeader.scheme",
+                                  "MafHeader.validate", "MafHeaderRecord.") else 1
+    lr_share = 3 if (R.focused("util.py") or R.focused_fn("from_line_reader")) else 1
+    args_share = 3 if R.focused_fn("from_reader", "from_defaults", "MafHeaderSortOrderRecord", "MafHeaderContigRecord",
+                                   "scheme_header_lines") else 1
+    for _ in range(max(40, n // 5) * ops_share // (2 if ops_share > 1 else 1)):
         out.append(_ops_case(rng))
-    for _ in range(max(30, n // 10)):
+    for _ in range(max(30, n // 10) * lr_share):
         out.append(_lr_case(rng))
-    for _ in range(max(30, n // 10)):
+    for _ in range(max(30, n // 10) * args_share):
         out.append(_args_case(rng))
+    n = max(n, len(out) + n // 3)        # the pragma-grammar streams always keep at least a third of the budget
     nd = max(20, n // 8)
     for _ in range(nd):
         ls = [l for l in (_valid(rng) if rng.random() < 0.7 else _lines(rng, "defect")) if l.startswith("#")
